@@ -17,8 +17,8 @@ type vF struct {
 	written *vstore.Map
 	keyLen  int
 	lazy    bool // LazyFlushable whose producer has not been called yet
-	valMin  int // 0: values may be empty; 1: always one arbitrary byte
-	kinds   int // 2: put/delete; 3: + batch
+	valMin  int  // 0: values may be empty; 1: always one arbitrary byte
+	kinds   int  // 2: put/delete; 3: + batch
 }
 
 func newVF(nUnder, keyLen int, lazy bool) *vF {
@@ -286,13 +286,15 @@ func VerifH_C22_prefix() {
 	sym.Reach("prefix")
 }
 
-// VerifH_C22_t: 0-2 underlying entries, 2 arbitrary writes (put/delete/batch), every final check.
-// (0-2 entries with THREE arbitrary writes did not finish: 606 k paths explored in 3000 s, no violation; not registered)
+// VerifH_C22_t: 0-2 underlying entries, 2 put/delete writes, reads / iteration / flush / snapshot.
+// (0-2 entries with two or three writes that may also be BATCHES did not finish: > 1 M paths explored in 3000 s
+// without a violation; such runs are not registered.  Batches are covered by _q, _batch and _batchEmpty.)
 func VerifH_C22_t() {
 	h := newVF(sym.Choice("nunder", 3), 1, false)
+	h.kinds = 2
 	h.write(0)
 	h.write(1)
-	h.final()
+	h.finalOf(sym.Choice("final", 4))
 }
 
 // VerifH_C22_w3: 1 underlying entry, 3 put/delete writes, then reads / iteration / flush / snapshot.
@@ -313,4 +315,3 @@ func VerifH_C22_lazy() {
 	h.write(1)
 	h.final()
 }
-
